@@ -26,6 +26,7 @@ class Latch(Logic):
             
     def structureName(self):
         msg = 'Latch{}'.format(self.q.getWidth())
+        if (self.d.getWidth() != self.q.getWidth()): msg += '_d{}'.format(self.d.getWidth())
         return msg
     
 class Reg(Logic):
@@ -115,6 +116,7 @@ class Reg(Logic):
 
     def structureName(self):
         msg = 'Reg{}'.format(self.q.getWidth())
+        if (self.d.getWidth() != self.q.getWidth()): msg += '_d{}'.format(self.d.getWidth())
         
         if not(self.r is None): msg += 'R'
         if not(self.e is None): msg += 'E'
